@@ -845,6 +845,10 @@ fn main() {
                     _ => "err:NotTransactional".into(),
                 }
             }
+            "rmfile" => match std::fs::remove_file(a[0]) {
+                Ok(()) => "ok".into(),
+                Err(e) => format!("err:{:?}", e.kind()),
+            },
             "spawn_rmw" => {
                 // spawn_rmw <tid> <ks> <key> <n> [yield]: n read-modify-write transactions (counter += 1) on a transactional database
                 let tid = a[0].to_string();
